@@ -25,5 +25,27 @@ def run(ctx):
              "non-trivial = two listeners and at least two served connections")
 
 
+    # clause "connections still queued at a worker when it shuts down are released rather than served or leaked":
+    # Worker.tla stop configs on the real ServerWorker
+    import workerflow
+    workerflow.run_check(
+        ctx, design=["MC_worker_stop.cfg"], edge_cfgs=["MC_worker_stop.cfg"],
+        negs={"NEG_worker_DrainCalls.cfg": ["Steps"], "NEG_worker_DrainOnlyAtStop.cfg": ["Steps"]},
+        invariants=WINV, corpus=["worker_stop.ndjson"], thorough_design=["MC_worker_stop2.cfg"], tag="c01w",
+        nontrivial=lambda s, run: any(r.get("do") == "StopWorker" and any(t > 0 for t in r.get("prevTotal", [])) for r in run),
+        rule="shutdown drain: paths covering every edge of Worker.tla's stop configs (connections queued or arriving while the "
+             "worker shuts down) on the real ServerWorker: nothing is served after a graceful stop was received, the queue is "
+             "empty after every poll of a worker that is shutting down, and what was queued ends closed")
+
+
+WINV = ["T_C01_NoCallInShutdown", "T_C01_ShutdownDrainsQueue", "T_C01_DrainReleases"]
+
+
 def replay(ctx, path):
-    srvflow.replay(ctx, path, INV)
+    import json
+    rp = json.load(open(path))["replay"]
+    if any(i in WINV for i in (rp.get("invariants") or [])):
+        import workerflow
+        workerflow.replay(ctx, path, WINV)
+    else:
+        srvflow.replay(ctx, path, INV)
